@@ -1,7 +1,7 @@
 (* C02 — property theorems.  Statements only: each is closed by [exact] of a lemma proved in
    coq/C02/, followed by Print Assumptions. *)
 From Coq Require Import ZArith List Bool Sorted.
-From Scenic Require Import C02.Checker C02.CheckerProofs C02.Defaults C02.DefaultsProofs C02.Basic C02.BasicProofs.
+From Scenic Require Import C02.Checker C02.CheckerProofs C02.Defaults C02.DefaultsProofs C02.Basic C02.BasicProofs C02.DropProofs.
 Import ListNotations.
 
 (* An accepted sample satisfies every active mandatory requirement — for EVERY comparison
@@ -185,3 +185,38 @@ Example C02_stable_example :
   isort (fun a b : nat * nat => Nat.ltb (fst a) (fst b)) [(2, 0); (1, 1); (2, 2); (1, 3); (2, 4)]%nat
   = [(1, 1); (1, 3); (2, 0); (2, 2); (2, 4)]%nat.
 Proof. reflexivity. Qed.
+
+(* ================================================================== round 3: what the optional blanket check cannot be relied on for *)
+(* the verdict and the new metrics depend only on what the sample says about the requirements actually run *)
+Theorem C02_verdict_depends_only_on_run : forall (lt : req -> req -> bool) st rs s s' durs,
+  (forall r, In r (sorted_requirements_with lt rs) -> s (rid r) = s' (rid r)) ->
+  check_with lt st rs s durs = check_with lt st rs s' durs.
+Proof. exact verdict_depends_only_on_run. Qed.
+Print Assumptions C02_verdict_depends_only_on_run.
+
+Theorem C02_sorted_never_ends_optional : forall (lt : req -> req -> bool) rs d, sorted_requirements_with lt rs <> [] ->
+  optional (last (sorted_requirements_with lt rs) d) = false.
+Proof. exact sorted_never_ends_optional. Qed.
+Print Assumptions C02_sorted_never_ends_optional.
+
+Theorem C02_not_run_is_optional : forall (lt : req -> req -> bool) rs r, In r rs -> active r = true ->
+  ~ In r (sorted_requirements_with lt rs) -> optional r = true.
+Proof. exact not_run_is_optional. Qed.
+Print Assumptions C02_not_run_is_optional.
+
+(* after ONE collision-free sample in which it was the slower requirement, the optional requirement is dropped, and a sample that
+   only it falsifies is accepted: the mandatory pairwise requirements must be exact on their own (seeded/C02-4) *)
+Theorem C02_optional_dropped_reachable :
+  exists (B : nat) (rs : list req) (h : list step) (s : sample) (durs : list Z),
+    let st := run_history B (init_state B 2) h in
+    s 0%nat = true /\ all_mandatory_hold rs s /\ ~ all_active_hold rs s /\
+    sorted_requirements B st rs = [mkReq 1 false true] /\
+    snd (check B st rs s durs) = Accept.
+Proof. exact optional_dropped_reachable. Qed.
+Print Assumptions C02_optional_dropped_reachable.
+
+Theorem C02_optional_implied_necessary :
+  exists (B : nat) (st : cstate) (rs : list req) (s : sample) (durs : list Z),
+    st_inv B st /\ ~ optional_implied rs s /\ snd (check B st rs s durs) = Accept /\ ~ all_active_hold rs s.
+Proof. exact optional_implied_necessary. Qed.
+Print Assumptions C02_optional_implied_necessary.
